@@ -353,10 +353,43 @@ def check_span_pairing(ctx, start: FuncInfo, end: FuncInfo, attr="parent", rule=
             f"(found top-level sequence {kinds}): tag nesting and the end-tag handler's one-pop-per-tag get out of step")
   # statements between function start and the generic sequence may only be returns guarded by tag tests (ruby / rt special cases)
   ctx.unit(end.module)
-  pops = [st for st in own_nodes(end.node) if isinstance(st, ast.Assign) and unparse(st.targets[0]) == selfattr and unparse(st.value) == f"{selfattr}.parent()"]
-  toplevel_pops = [st for st in pops if parent(st) is end.node]
-  ctx.check(len(toplevel_pops) == 1, rule, f"{end.qualname}|every end tag closes exactly one span level", ctx.where(end.module, end.node),
-            "one unconditional pop at function level", f"the end-tag handler has {len(toplevel_pops)} unconditional pops (expected 1)")
+  # every path through the end-tag handler pops a level, except the paths on which the insertion point is known to
+  # be the paragraph (nothing is open: the unmatched-tag warning) and explicit early returns
+  from .match import relation as _rel
+
+  def is_pop(st):
+    return isinstance(st, ast.Assign) and unparse(st.targets[0]) == selfattr and unparse(st.value) == f"{selfattr}.parent()"
+
+  def at_root(test, pol):
+    neg = False
+    while isinstance(test, ast.UnaryOp) and isinstance(test.op, ast.Not):
+      neg, test = not neg, test.operand
+    isroot = isinstance(test, ast.Call) and isinstance(test.func, ast.Name) and test.func.id == "isinstance" and len(test.args) == 2 \
+      and unparse(test.args[0]) == selfattr and unparse(test.args[1]).split(".")[-1] == "P"
+    return isroot and (pol != neg)
+
+  def walk(stmts, pops, root):
+    """yields (pops, root, ended) for every path through stmts; ended: 'fall' / 'return'"""
+    if not stmts:
+      yield pops, root, "fall"
+      return
+    st, rest = stmts[0], stmts[1:]
+    if isinstance(st, ast.Return) or isinstance(st, ast.Raise):
+      yield pops, root, "return"
+    elif isinstance(st, ast.If):
+      for body, pol in ((st.body, True), (st.orelse, False)):
+        for p2, r2, e2 in walk(body, pops, root or at_root(st.test, pol)):
+          if e2 == "fall":
+            yield from walk(rest, p2, r2)
+          else:
+            yield p2, r2, e2
+    else:
+      yield from walk(rest, pops + (1 if is_pop(st) else 0), root)
+  paths = list(walk([s_ for s_ in end.node.body if not (isinstance(s_, ast.Expr) and isinstance(s_.value, ast.Constant))], 0, False))
+  bad_paths = [p_ for p_ in paths if p_[2] == "fall" and not p_[1] and p_[0] < 1]
+  n_pops = sum(1 for st in own_nodes(end.node) if is_pop(st))
+  ctx.check(not bad_paths and n_pops >= 1, rule, f"{end.qualname}|every end tag closes exactly one span level", ctx.where(end.module, end.node),
+            f"{len(paths)} paths: each pops a level unless nothing is open", f"{len(bad_paths)} of {len(paths)} paths through the end-tag handler leave the insertion point where it was although a span is open (pops in the handler: {n_pops})")
 
 
 # ---------------------------------------------------------------------------------------
